@@ -28,7 +28,7 @@ theorem not_holds_of_refs_zero {g sh P log} (h : InvP g sh P log) {n : Node} (hn
 
 theorem vl_setv {g sh Q log sh' id sf push evs} (h : InvP g sh (Instr.setv id sf :: Q) log)
     (he : execSetv sh id sf = some (sh', push, evs)) :
-    (g = true ∨ sh'.closed = false) → sh'.forced = false → ∀ n ∈ sh'.nodes,
+    (Eff g sh' = true ∨ sh'.closed = false) → sh'.forced = false → ∀ n ∈ sh'.nodes,
       Holds sh' (push ++ Q) n → n.value.isSome = true := by
   have hvl := h.vl
   unfold execSetv at he
@@ -99,7 +99,7 @@ theorem vl_setv {g sh Q log sh' id sf push evs} (h : InvP g sh (Instr.setv id sf
 
 theorem vl_ban {g sh Q log sh' id push evs} (h : InvP g sh (Instr.ban id :: Q) log)
     (he : execBan sh id = some (sh', push, evs)) :
-    (g = true ∨ sh'.closed = false) → sh'.forced = false → ∀ n ∈ sh'.nodes,
+    (Eff g sh' = true ∨ sh'.closed = false) → sh'.forced = false → ∀ n ∈ sh'.nodes,
       Holds sh' (push ++ Q) n → n.value.isSome = true := by
   have hvl := h.vl
   have keep : ∀ {n : Node}, (∃ j ∈ Q, holdsVal n.id j = true) → Holds sh (Instr.ban id :: Q) n :=
@@ -161,12 +161,12 @@ theorem vl_ban {g sh Q log sh' id push evs} (h : InvP g sh (Instr.ban id :: Q) l
 
 theorem vl_levict {g sh Q log sh' id push evs} (h : InvP g sh (Instr.levict id :: Q) log)
     (he : execLevict sh id = some (sh', push, evs)) :
-    (g = true ∨ sh'.closed = false) → sh'.forced = false → ∀ n ∈ sh'.nodes,
+    (Eff g sh' = true ∨ sh'.closed = false) → sh'.forced = false → ∀ n ∈ sh'.nodes,
       Holds sh' (push ++ Q) n → n.value.isSome = true := by
   have hvl := h.vl
   have keep : ∀ {n : Node}, (∃ j ∈ Q, holdsVal n.id j = true) → Holds sh (Instr.levict id :: Q) n :=
     fun ⟨j, hj, hv⟩ => Or.inr (Or.inr ⟨j, List.mem_cons_of_mem _ hj, hv⟩)
-  have same : (g = true ∨ sh.closed = false) → sh.forced = false → ∀ n ∈ sh.nodes,
+  have same : (Eff g sh = true ∨ sh.closed = false) → sh.forced = false → ∀ n ∈ sh.nodes,
       Holds sh ([] ++ Q) n → n.value.isSome = true := by
     intro hg hf n hn hold
     refine hvl hg hf n hn ?_
@@ -207,7 +207,7 @@ theorem evicted_mem {ns : List Node} {cap : Nat} {l : List Nat} {used e : Nat}
 
 theorem vl_promote {g sh Q log sh' pid push evs} (h : InvP g sh (Instr.promote pid :: Q) log)
     (he : execPromote sh pid = some (sh', push, evs)) :
-    (g = true ∨ sh'.closed = false) → sh'.forced = false → ∀ n ∈ sh'.nodes,
+    (Eff g sh' = true ∨ sh'.closed = false) → sh'.forced = false → ∀ n ∈ sh'.nodes,
       Holds sh' (push ++ Q) n → n.value.isSome = true := by
   have hvl := h.vl
   have hlr := h.lr.2
@@ -216,7 +216,7 @@ theorem vl_promote {g sh Q log sh' pid push evs} (h : InvP g sh (Instr.promote p
   have self : ∀ {n : Node}, n.id = pid → Holds sh (Instr.promote pid :: Q) n :=
     fun hid => Or.inr (Or.inr ⟨_, List.mem_cons_self, by simp [holdsVal, hid]⟩)
   -- the cases that only push `retHandle pid`
-  have same : ∀ recent', (g = true ∨ sh.closed = false) → sh.forced = false → ∀ n ∈ sh.nodes,
+  have same : ∀ recent', (Eff g sh = true ∨ sh.closed = false) → sh.forced = false → ∀ n ∈ sh.nodes,
       Holds { sh with lru := { sh.lru with recent := recent' } } ([Instr.retHandle pid] ++ Q) n →
       n.value.isSome = true := by
     intro recent' hg hf n hn hold
@@ -292,7 +292,7 @@ theorem vl_promote {g sh Q log sh' pid push evs} (h : InvP g sh (Instr.promote p
 
 theorem vl_setcap {g sh Q log sh' c push evs} (h : InvP g sh (Instr.setcap c :: Q) log)
     (he : execSetcap sh c = some (sh', push, evs)) :
-    (g = true ∨ sh'.closed = false) → sh'.forced = false → ∀ n ∈ sh'.nodes,
+    (Eff g sh' = true ∨ sh'.closed = false) → sh'.forced = false → ∀ n ∈ sh'.nodes,
       Holds sh' (push ++ Q) n → n.value.isSome = true := by
   have hvl := h.vl
   have hlr := h.lr.2
@@ -327,7 +327,7 @@ theorem vl_setcap {g sh Q log sh' c push evs} (h : InvP g sh (Instr.setcap c :: 
 
 theorem vl_fin {g sh Q log sh' id f push evs} (h : InvP g sh (Instr.fin id f :: Q) log)
     (he : execFin sh id f = some (sh', push, evs)) :
-    (g = true ∨ sh'.closed = false) → sh'.forced = false → ∀ n ∈ sh'.nodes,
+    (Eff g sh' = true ∨ sh'.closed = false) → sh'.forced = false → ∀ n ∈ sh'.nodes,
       Holds sh' (push ++ Q) n → n.value.isSome = true := by
   have hvl := h.vl
   have hclosed : sh.closed = true := by
@@ -349,7 +349,7 @@ theorem vl_fin {g sh Q log sh' id f push evs} (h : InvP g sh (Instr.fin id f :: 
     simp [hfind] at he; obtain ⟨rfl, rfl, rfl⟩ := he
     intro hg hf n hn hold
     simp only [] at hg hf hn hold
-    have hgt : g = true := by
+    have hgt : Eff g sh = true := by
       rcases hg with hg | hg
       · exact hg
       · rw [hclosed] at hg; cases hg
@@ -373,7 +373,7 @@ theorem vl_fin {g sh Q log sh' id f push evs} (h : InvP g sh (Instr.fin id f :: 
 
 theorem vl_step {g sh Q log sh' i push evs} (h : InvP g sh (i :: Q) log)
     (he : exec sh i = some (sh', push, evs)) :
-    (g = true ∨ sh'.closed = false) → sh'.forced = false → ∀ n ∈ sh'.nodes,
+    (Eff g sh' = true ∨ sh'.closed = false) → sh'.forced = false → ∀ n ∈ sh'.nodes,
       (n.id ∈ sh'.handles ∨ n.lru = .inList ∨ ∃ j ∈ push ++ Q, holdsVal n.id j = true) → n.value.isSome = true := by
   have hvl := h.vl
   have hopf : sh.closed = false → sh.forced = false := fun hc => (h.op hc).2
